@@ -48,11 +48,20 @@ def parts(tier):
     if tier != "quick":
         for cfg in SWEEP:
             extra += [dict(part="ep", cfg=cfg, shards=2), dict(part="fp", cfg=cfg, shards=1)]
+    hist = [dict(part="hist", cfg="asan256", shards=4 if tier == "quick" else 8),
+            dict(part="hist", cfg="asan255", shards=2 if tier == "quick" else 3),
+            dict(part="hist", cfg="asan381", shards=2),
+            dict(part="hist-binary", cfg="asan256", shards=3 if tier == "quick" else 6)]
+    if tier != "quick":
+        hist += [dict(part="hist", cfg=cfg, shards=2) for cfg in SWEEP]
     return extra + [dict(part="ep", cfg="asan256", shards=6), dict(part="ep", cfg="asan255", shards=2),
             dict(part="ep", cfg="asan381", shards=5),
             dict(part="fp", cfg="asan256", shards=2), dict(part="fp", cfg="asan255", shards=1),
             dict(part="fp", cfg="asan381", shards=1),
-            dict(part="binary", cfg="asan256", shards=2), dict(part="ed", cfg="asan255", shards=1)]
+            dict(part="binary", cfg="asan256", shards=2), dict(part="ed", cfg="asan255", shards=1)] + hist
+
+
+BINARY_CFGS = ("asan256",)        # the build whose binary fields / curves this module judges (part "binary")
 
 
 # =================================================================================================== models
@@ -296,10 +305,23 @@ class Ob(object):
         self.ctx, self.R = ctx, R
         self.ident = None
         self.unit = 0
+        self.grouped = False      # inside one journaled (identifier, history) case: obligations are comparisons of it
 
     def __call__(self, name, fn, desc=None, budget=None):
         ctx = self.ctx
         key = "%s|%s" % (self.ident, name)
+        if self.grouped:
+            try:
+                res = fn()
+                ok, detail = res if isinstance(res, tuple) else (res, None)
+                ctx.check(bool(ok), key, detail)
+                return bool(ok)
+            except MonitorViolation as e:
+                ctx.fail(key + "|" + e.kind, e.detail)
+            except (ArithmeticError, ValueError) as e:
+                ctx.evaluations += 1
+                ctx.fail(key, {"model-exception": repr(e)})
+            return False
         if not ctx.begin(key, desc if desc is not None else [self.ident], budget=budget):
             return None
         try:
@@ -427,14 +449,17 @@ R_FAMILY = {"BN": lambda x: 36 * x ** 4 + 36 * x ** 3 + 18 * x ** 2 + 6 * x + 1,
 T_FAMILY = {"BN": lambda x: 6 * x * x + 1, "B12": lambda x: x + 1}
 
 
-def check_field(ob, R, X, nm, v, all_ids):
+def check_field(ob, R, X, nm, v, all_ids, hist=None, ref=None):
+    """hist/ref: the obligations are evaluated for the selection that follows the history 'hist' (already executed by
+    the caller); ref is the modulus this identifier installed when it was first selected in this process"""
     ctx = ob.ctx
-    ob.ident = "fp:" + nm
+    ob.ident = ident_of("fp", nm, hist)
     L = R.L
-    # history: every other accepted field first, then this one (the answers must describe *this* field)
-    for onm, ov in all_ids:
-        if ov != v:
-            R.call("fp_param_set", ov)
+    if hist is None:
+        # history: every other accepted field first, then this one (the answers must describe *this* field)
+        for onm, ov in all_ids:
+            if ov != v:
+                R.call("fp_param_set", ov)
     r = R.call("fp_param_set", v)
     if r.caught:
         ob("installs", lambda: (False, "fp_param_set raised an error on the second installation"))
@@ -447,7 +472,9 @@ def check_field(ob, R, X, nm, v, all_ids):
     digs = R.FP_DIGS
     Rr = 1 << (64 * digs)
     note(ctx, "fp_sets", {nm: {"p": hx(p), "bits": p.bit_length(), "p%8": p % 8, "p%9": p % 9}})
-    ob("prime", lambda: (is_probable_prime(p, 36), {"p": hx(p)}))
+    if hist is not None:
+        ob("modulus-is-the-identifiers-prime", lambda: modulus_ok(nm, p, ref))
+    ob("prime", lambda: (is_prime(p), {"p": hx(p)}))
     ob("size", lambda: (p.bit_length() == R.K["RLC_FP_BITS"], {"bits": p.bit_length(), "FP_PRIME": R.K["RLC_FP_BITS"]}))
     ob("identifier-getter", lambda: L.fp_param_get() == v)
 
@@ -546,6 +573,9 @@ def check_field(ob, R, X, nm, v, all_ids):
             return (c1 == 0 and can and pow(c0, (p - 1) // 2, p) == p - 1 and c0 == q % p,
                     {"u^2": [hx(c0), hx(c1)], "qnr": q})
         ob("fp2-u-squared-is-qnr", fp2_nonresidue)
+    if hist is not None and is_prime(p):
+        # the arithmetic that consumes the derived constants must be the arithmetic of this field
+        ob("field-arithmetic", lambda: field_battery(R, p, ctx.rng))
 
 
 # ------------------------------------------------------------------------------------------------- prime curves
@@ -581,10 +611,10 @@ def measure_tower(R, p):
     return F2, (v3[0], v3[1])
 
 
-def check_curve(ob, R, X, nm, v, group):
+def check_curve(ob, R, X, nm, v, group, hist=None):
     """group: 'base' | 'endo' | 'map' | 'pairing' | 'cof' (units are distributed over the shards)"""
     ctx, rng, L = ob.ctx, ob.ctx.rng, R.L
-    ob.ident = "ep:" + nm
+    ob.ident = ident_of("ep", nm, hist)
     r0 = R.call("ep_param_set", v)
     if r0.caught or L.ep_param_get() != v:
         ob("installs", lambda: (False, "ep_param_set failed on re-installation"))
@@ -772,9 +802,10 @@ def cof_cases(ctx, ident, what, points, expected, call, read, cmp_eq, put_in, pu
     points: [(label, model point or None)], expected(label, P) -> list of acceptable model points (None = infinity).
     Failure keys: <ident>|<what>|<mode>|value / ep_cmp / subgroup / input-modified / unexpected-error."""
     pin, pout, pexp = objs
+    grouped = getattr(ctx, "c18_grouped", False)       # inside an (identifier, history) case: comparisons of that case
     for mode in ("sep", "sep-infty", "inplace"):
         key = "%s|%s|%s" % (ident, what, mode)
-        if not ctx.begin(key, [ident, [lab for lab, _ in points]], budget=600):
+        if not grouped and not ctx.begin(key, [ident, [lab for lab, _ in points]], budget=600):
             continue
         try:
             for lab, Pt in points:
@@ -816,7 +847,8 @@ def cof_cases(ctx, ident, what, points, expected, call, read, cmp_eq, put_in, pu
             ctx.evaluations += 1
             ctx.fail(key + "|value", {"model-exception": repr(e)})
         finally:
-            ctx.end()
+            if not grouped:
+                ctx.end()
 
 
 def check_cofactor_map(ob, R, X, nm, P, E, F):
@@ -1186,9 +1218,9 @@ def fb_int(R, ptr):
     return int.from_bytes(ctypes.string_at(ptr, R.K["RLC_FB_DIGS"] * 8), "little")
 
 
-def check_fb(ob, R, X, nm, v):
+def check_fb(ob, R, X, nm, v, hist=None, ref=None):
     ctx, L = ob.ctx, R.L
-    ob.ident = "fb:" + nm
+    ob.ident = ident_of("fb", nm, hist)
     m = X["FB_POLYN"]
     r = R.call("fb_param_set", v)
     if r.caught:
@@ -1196,6 +1228,9 @@ def check_fb(ob, R, X, nm, v):
         return
     f = fb_int(R, ptr_fn(R, "fb_poly_get")())
     note(ctx, "fb_sets", {nm: hx(f)})
+    if hist is not None:
+        ob("identifier-getter", lambda: L.fb_param_get() == v)
+        ob("polynomial-is-the-identifiers-polynomial", lambda: (f == ref, {"observed": hx(f), "first-selection": hx(ref)}))
     ob("degree", lambda: (f.bit_length() - 1 == m, {"deg": f.bit_length() - 1}))
     ob("irreducible", lambda: (gf2_irreducible(f), {"f": hx(f)}))
     K = GF2(f)
@@ -1209,7 +1244,9 @@ def check_fb(ob, R, X, nm, v):
             g |= 1 << t
         return g == f, {"terms": [ia.value, ib.value, ic.value], "f": hx(f)}
     ob("reduction-terms-describe-the-polynomial", rdc_terms)
-    if R.has("fb_poly_get_trc"):
+    if hist is not None and f.bit_length() - 1 == m and gf2_irreducible(f):
+        ob("field-arithmetic", lambda: fb_battery(R, K, ctx.rng))
+    if R.has("fb_poly_get_trc") and (hist is None or not ctx.quick):
         L.fb_poly_get_trc(ctypes.byref(ia), ctypes.byref(ib), ctypes.byref(ic))
         got = sorted(t for t in (ia.value, ib.value, ic.value) if t >= 0)
 
@@ -1224,9 +1261,9 @@ def check_fb(ob, R, X, nm, v):
             ob("sqrt-of-x", lambda: (K.sqr(srz) == 2, {"srz": hx(srz)}))
 
 
-def check_eb(ob, R, X, nm, v, group):
+def check_eb(ob, R, X, nm, v, group, hist=None):
     ctx, rng, L = ob.ctx, ob.ctx.rng, R.L
-    ob.ident = "eb:" + nm
+    ob.ident = ident_of("eb", nm, hist)
     r0 = R.call("eb_param_set", v)
     if r0.caught or L.eb_param_get() != v:
         ob("installs", lambda: (False, "eb_param_set failed on re-installation"))
@@ -1281,9 +1318,9 @@ def check_eb(ob, R, X, nm, v, group):
 
 
 # ------------------------------------------------------------------------------------------------------ Edwards
-def check_ed(ob, R, X, nm, v):
+def check_ed(ob, R, X, nm, v, hist=None, ref=None):
     ctx, rng, L = ob.ctx, ob.ctx.rng, R.L
-    ob.ident = "ed:" + nm
+    ob.ident = ident_of("ed", nm, hist)
     r0 = R.call("ed_param_set", v)
     if r0.caught or L.ed_param_get() != v:
         ob("installs", lambda: (False, "ed_param_set failed"))
@@ -1309,6 +1346,10 @@ def check_ed(ob, R, X, nm, v):
     level = L.ed_param_level()
     note(ctx, "ed_sets", {nm: {"p": hx(p), "a": hx(a), "d": hx(d), "r": hx(n), "h": hx(h), "level": level}})
     E = EdCurve(p, a, d)
+    if hist is not None:
+        ob("modulus-is-the-identifiers-prime", lambda: modulus_ok(nm, p, ref["p"]))
+        now = dict(p=p, a=a, d=d, gx=gx, gy=gy, gz=gz, n=n, h=h, level=level)
+        ob("parameters-unchanged", lambda: unchanged(now, ref))
     ob("field-prime", lambda: is_probable_prime(p, 36))
     ob("generator-normalised", lambda: (gz == 1, {"z": hx(gz)}))
     G = (gx * pow(gz, -1, p) % p, gy * pow(gz, -1, p) % p)
@@ -1352,7 +1393,744 @@ def check_ed(ob, R, X, nm, v):
             R.free(q)
         return (x, y) == E.mul(3, G), {"3G": [hx(x), hx(y)]}
     ob("group-law-uses-these-constants", lib_law)
+    if hist is not None:
+        ob("field-arithmetic", lambda: field_battery(R, p, rng))
+        if E.on_curve(G) and R.has("ed_mul_gen"):
+            def gen_mul():
+                k = rng.randrange(1, n)
+                q = R.mem(K["sizeof_ed_st"], R.poison)
+                kb = R.bn(k)
+                try:
+                    rr = R.call("ed_mul_gen", q, kb)
+                    if rr.caught:
+                        return False, {"k": hx(k), "why": "ed_mul_gen raised an error"}
+                    R.call("ed_norm", q, q)
+                    x, y, z = rd(q)
+                finally:
+                    R.free(q)
+                    R.bn_free(kb)
+                return z == 1 and (x, y) == E.mul(k, G), {"k": hx(k), "got": [hx(x), hx(y), hx(z)]}
+            ob("curve-arithmetic", gen_mul)
     R.free(g)
+
+
+# ============================================================================================ selection histories
+# An identifier denotes ONE parameter set: whatever the context went through before the selection function is called
+# (earlier selections, public calls that install a modulus / polynomial / curve without an identifier, failed calls),
+# the obligations above must hold for what the selection leaves behind.  One (identifier, history) = one case; the
+# obligations are its comparisons (key suffix).
+_PRIME = {}
+
+
+def is_prime(n):
+    if n not in _PRIME:
+        _PRIME[n] = is_probable_prime(n, 36)
+    return _PRIME[n]
+
+
+def ident_of(kind, nm, hist):
+    return "%s:%s" % (kind, nm) if hist is None else "%s:%s|after-%s" % (kind, nm, hist)
+
+
+# moduli as published by the standards that define the named sets (FIPS 186-4 D.1.2, SEC 2, RFC 5639, GB/T 32918.5,
+# RFC 7748, GM/T 0044 (BN family at x = 0x600000000058F98A), draft-irtf-cfrg-pairing-friendly-curves (BLS12-381))
+_P256 = 2 ** 256 - 2 ** 224 + 2 ** 192 + 2 ** 96 - 1
+_K256 = 2 ** 256 - 2 ** 32 - 977
+_SM2 = 2 ** 256 - 2 ** 224 - 2 ** 96 + 2 ** 64 - 1
+_BP256 = 0xA9FB57DBA1EEA9BC3E660A909D838D726E3BF623D52620282013481D1F6E5377
+_25519 = 2 ** 255 - 19
+_B381 = P_FAMILY["B12"](-0xd201000000010000)
+_SM9 = P_FAMILY["BN"](0x600000000058F98A)
+PUBLISHED_P = {"NIST_P256": _P256, "NIST_256": _P256, "SECG_K256": _K256, "SECG_256": _K256, "SM2_P256": _SM2,
+               "SM2_256": _SM2, "BSI_P256": _BP256, "BSI_256": _BP256, "CURVE_25519": _25519, "PRIME_25519": _25519,
+               "CURVE_ED25519": _25519, "B12_P381": _B381, "B12_381": _B381, "SM9_P256": _SM9, "SM9_256": _SM9,
+               "NIST_P224": 2 ** 224 - 2 ** 96 + 1, "NIST_224": 2 ** 224 - 2 ** 96 + 1,
+               "NIST_P384": 2 ** 384 - 2 ** 128 - 2 ** 96 + 2 ** 32 - 1, "NIST_384": 2 ** 384 - 2 ** 128 - 2 ** 96 + 2 ** 32 - 1,
+               "NIST_P521": 2 ** 521 - 1, "NIST_521": 2 ** 521 - 1}
+
+
+def modulus_ok(nm, p, first):
+    pub = PUBLISHED_P.get(nm)
+    return (p == first and (pub is None or p == pub),
+            {"observed": hx(p), "first-selection": hx(first), "published": hx(pub) if pub else None})
+
+
+def unchanged(now, ref):
+    diff = {k: [hx(now[k]) if isinstance(now[k], int) and not isinstance(now[k], bool) else now[k],
+                hx(ref[k]) if isinstance(ref[k], int) and not isinstance(ref[k], bool) else ref[k]]
+            for k in now if k in ref and now[k] != ref[k]}
+    return not diff, {"observed-vs-first-selection": diff}
+
+
+def cur_modulus(R):
+    R.L.fp_prime_get.restype = ctypes.c_void_p
+    return int.from_bytes(ctypes.string_at(R.L.fp_prime_get(), R.K["RLC_FP_DIGS"] * R.DB), "little")
+
+
+# ------------------------------------------------------------------------------- behaviour against the models
+def field_battery(R, p, rng):
+    """prime-field routines that consume the derived constants (Montgomery u / R / R^2, inversion constant, root of
+    unity, quadratic non-residue of the tower) against Python integers"""
+    a, b, c = R.fp_new(), R.fp_new(), R.fp_new()
+    t = R.bn_new()
+    try:
+        for _ in range(3):
+            x, y = rng.randrange(1, p), rng.randrange(1, p)
+            R.fp_put(a, x)
+            R.fp_put(b, y)
+            for fn, args, exp in (("fp_mul", (c, a, b), x * y % p), ("fp_sqr", (c, a), x * x % p),
+                                  ("fp_add", (c, a, b), (x + y) % p), ("fp_inv", (c, a), pow(x, -1, p))):
+                if not R.has(fn):
+                    continue
+                r = R.call(fn, *args)
+                got, can = R.fp_get(c)
+                if r.caught or got != exp or not can:
+                    return False, {"fn": fn, "x": hx(x), "y": hx(y), "got": hx(got), "exp": hx(exp), "error": bool(r.caught),
+                                   "canonical": can, "p": hx(p)}
+            if R.has("fp_srt"):
+                R.fp_put(a, x * x % p)
+                r = R.call("fp_srt", c, a)
+                got, can = R.fp_get(c)
+                if r.caught or r.i != 1 or got * got % p != x * x % p:
+                    return False, {"fn": "fp_srt", "x^2": hx(x * x % p), "got": hx(got), "ret": r.i, "p": hx(p)}
+            k = rng.getrandbits(p.bit_length() + 40)
+            R.bn_put(t, k)
+            r = R.call("fp_prime_conv", c, t)
+            got, can = R.fp_get(c)
+            if r.caught or got != k % p or not can:
+                return False, {"fn": "fp_prime_conv", "k": hx(k), "got": hx(got), "exp": hx(k % p), "p": hx(p)}
+            R.fp_put(a, x)
+            r = R.call("fp_prime_back", t, a)
+            if r.caught or R.bn_val(t) != x:
+                return False, {"fn": "fp_prime_back", "x": hx(x), "got": repr(R.bn_val(t)), "p": hx(p)}
+        q = R.L.fp_prime_get_qnr()
+        if q and R.has("fp2_mul"):
+            x0, x1, y0, y1 = (rng.randrange(p) for _ in range(4))
+            A, B, C = R.fpx_new(2, [x0, x1]), R.fpx_new(2, [y0, y1]), R.fpx_new(2)
+            try:
+                r = R.call("fp2_mul", C, A, B)
+                got, can = R.fpx_get(C, 2)
+            finally:
+                for o in (A, B, C):
+                    R.free(o)
+            exp = [(x0 * y0 + q * x1 * y1) % p, (x0 * y1 + x1 * y0) % p]
+            if r.caught or got != exp or not can:
+                return False, {"fn": "fp2_mul", "qnr": q, "got": [hx(g_) for g_ in got], "exp": [hx(e) for e in exp], "p": hx(p)}
+        return True
+    finally:
+        for o in (a, b, c):
+            R.free(o)
+        R.bn_free(t)
+
+
+def ep_model_point(R, E, o):
+    x, y, z, co, can = R.ep_get(o)
+    K = R.K
+    if z == 0:
+        return None, can
+    if co == K["BASIC"]:
+        return ((x, y) if z == 1 else "invalid"), can
+    if co == K["PROJC"]:
+        return E.from_homog(x, y, z), can
+    if co == K["JACOB"]:
+        return E.from_jacob(x, y, z), can
+    return "invalid", can
+
+
+def curve_battery(R, E, G, n, rng):
+    """generator table, coefficient flags and endomorphism constants in use: [k]G by the fixed-base routine, [k]Q by the
+    variable-base routine, Q + G and 2Q against the affine model of the curve whose constants the getters report"""
+    o, q, g = R.ep_new(), R.ep_new(), R.ep_new()
+    k = rng.randrange(1, n)
+    j = rng.randrange(1, n)
+    kb = R.bn(k)
+    try:
+        R.ep_put(g, G[0], G[1])
+        Q = E.mul(j, G)
+        R.ep_put(q, Q[0], Q[1])
+        for fn, args, exp in (("ep_mul_gen", (o, kb), lambda: E.mul(k, G)), ("ep_mul", (o, q, kb), lambda: E.mul(k, Q)),
+                              ("ep_add", (o, q, g), lambda: E.add(Q, G)), ("ep_dbl", (o, q), lambda: E.add(Q, Q))):
+            if not R.has(fn):
+                continue
+            R.ep_put(o, G[0], G[1])
+            r = R.call(fn, *args)
+            got, can = ep_model_point(R, E, o)
+            e = exp()
+            if r.caught or got == "invalid" or not E.eq(got, e) or not can:
+                return False, {"fn": R.target(fn), "k": hx(k), "j": hx(j), "got": repr(got)[:200], "exp": repr(e)[:200],
+                               "error": bool(r.caught), "canonical": can}
+        r = R.call("ep_on_curve", g)
+        if r.caught or r.i != 1:
+            return False, {"fn": "ep_on_curve", "ret": r.i, "why": "the library rejects the generator it reports"}
+        return True
+    finally:
+        for t in (o, q, g):
+            R.free(t)
+        R.bn_free(kb)
+
+
+def fb_put(R, ptr, val):
+    n = R.K["RLC_FB_DIGS"] * 8
+    ctypes.memmove(ptr, val.to_bytes(n, "little"), n)
+
+
+def fb_battery(R, K, rng):
+    """binary-field routines that consume the constants derived from the polynomial (reduction terms, trace positions,
+    half-trace / square-root tables, inversion chain) against the GF(2^m) model"""
+    n = R.K["RLC_FB_DIGS"] * 8
+    a, b, c = R.mem(n, 0), R.mem(n, 0), R.mem(n, 0)
+    try:
+        for _ in range(3):
+            x, y = rng.getrandbits(K.m) | 1, rng.getrandbits(K.m) | 2
+            fb_put(R, a, x)
+            fb_put(R, b, y)
+            for fn, args, exp in (("fb_mul", (c, a, b), lambda: K.mul(x, y)), ("fb_sqr", (c, a), lambda: K.sqr(x)),
+                                  ("fb_inv", (c, a), lambda: K.inv(x))):
+                if not R.has(fn):
+                    continue
+                r = R.call(fn, *args)
+                got = fb_int(R, c)
+                if r.caught or got != exp():
+                    return False, {"fn": R.target(fn), "x": hx(x), "y": hx(y), "got": hx(got), "exp": hx(exp())}
+            if R.has("fb_srt"):
+                r = R.call("fb_srt", c, a)
+                got = fb_int(R, c)
+                if r.caught or got >> K.m or K.sqr(got) != x:
+                    return False, {"fn": R.target("fb_srt"), "x": hx(x), "got": hx(got)}
+            if R.has("fb_trc"):
+                r = R.call("fb_trc", a)
+                if r.caught or (r.r & 0xFFFFFFFF) != K.trace(x):
+                    return False, {"fn": R.target("fb_trc"), "x": hx(x), "got": r.r, "exp": K.trace(x)}
+            if R.has("fb_slv") and K.m % 2:
+                z = x if K.trace(x) == 0 else x ^ 1            # Tr(1) = 1 for odd m
+                fb_put(R, a, z)
+                r = R.call("fb_slv", c, a)
+                got = fb_int(R, c)
+                if r.caught or got >> K.m or K.sqr(got) ^ got != z:
+                    return False, {"fn": R.target("fb_slv"), "x": hx(z), "got": hx(got)}
+        return True
+    finally:
+        for o in (a, b, c):
+            R.free(o)
+
+
+# ------------------------------------------------------------------------------------------------ history steps
+def gen_prime(rg, bits):
+    while True:
+        q = rg.getrandbits(bits) | 1 | (1 << (bits - 1))
+        if is_probable_prime(q, 12):
+            return q
+
+
+def sparse_prime(rg, bits):
+    """2^bits - 2^k - c (a pseudo-Mersenne form with three terms) -> (list for fp_prime_set_pmers, p)"""
+    k = rg.randrange(32, bits - 8)
+    c = rg.randrange(1, 1 << 16) | 1
+    while not is_probable_prime((1 << bits) - (1 << k) - c, 12):
+        c += 2
+    return [-c, -k, bits], (1 << bits) - (1 << k) - c
+
+
+def family_parameter(rg, bits, digs, DIG):
+    """a sparse BN parameter x whose p(x) is prime and occupies all the digits of this build"""
+    top = (bits - 6) // 4
+    while True:
+        e = sorted(rg.sample(range(1, top), 3))
+        x = (1 << top) + rg.choice((1, -1)) * (1 << e[2]) + rg.choice((1, -1)) * (1 << e[1]) + rg.choice((1, -1)) * (1 << e[0]) + 1
+        x *= rg.choice((1, -1))
+        pp = P_FAMILY["BN"](x)
+        if DIG * (digs - 1) < pp.bit_length() <= bits and is_probable_prime(pp, 12):
+            return x, pp
+
+
+_PENTA = {}
+
+
+def find_pentanomial(m, rg, avoid):
+    """an irreducible pentanomial of degree m with low middle terms (searched once per process)"""
+    if m in _PENTA and _PENTA[m][1] not in avoid:
+        return _PENTA[m]
+    for _ in range(20000):
+        a, b, c = sorted(rg.sample(range(1, min(m // 3, 100)), 3), reverse=True)
+        f = (1 << m) | (1 << a) | (1 << b) | (1 << c) | 1
+        if f not in avoid and gf2_irreducible(f):
+            _PENTA[m] = ((a, b, c), f)
+            return _PENTA[m]
+    return None, None
+
+
+def st_select(R, rg, env):
+    R.call(env["setter"], env["v"])
+
+
+def st_dense_prime(R, rg, env):
+    t = R.bn(gen_prime(rg, env["bits"]))
+    R.call("fp_prime_set_dense", t)
+    R.bn_free(t)
+
+
+def st_any_dense(R, rg, env):
+    R.call("fp_param_set_any_dense")
+
+
+def st_pmers_prime(R, rg, env):
+    import struct
+    f, _ = sparse_prime(rg, env["bits"])
+    ptr = R.put(struct.pack("<%di" % len(f), *f))
+    R.call("fp_prime_set_pmers", ptr, len(f))
+    R.free(ptr)
+
+
+def st_family_prime(R, rg, env):
+    x, _ = family_parameter(rg, env["bits"], R.K["RLC_FP_DIGS"], R.DIG)
+    t = R.bn(x)
+    R.call("fp_prime_set_pairf", t, R.E["EP_BN"])
+    R.bn_free(t)
+
+
+def st_other_field_id(R, rg, env):
+    cur = R.L.fp_param_get()
+    c = [v for _, v in env["fp_ids"] if v != cur] or [v for _, v in env["fp_ids"]]
+    R.call("fp_param_set", rg.choice(c))
+
+
+def st_same_field_id(R, rg, env):
+    R.call("fp_param_set", R.L.fp_param_get())
+
+
+def st_foreign_field_id(R, rg, env):
+    if env["fp_foreign"]:
+        R.call("fp_param_set", rg.choice(env["fp_foreign"]))
+
+
+def st_any_field(R, rg, env):
+    R.call(rg.choice(["fp_param_set_any", "fp_param_set_any_tower", "fp_param_set_any_pmers", "fp_param_set_any_h2adc"]))
+
+
+def st_curve_selection(R, rg, env):
+    if env["ep_ids"]:
+        R.call("ep_param_set", rg.choice(env["ep_ids"])[1])
+
+
+def st_other_curve(R, rg, env):
+    c = [v for _, v in env["ep_ids"] if v != env["v"]]
+    if c:
+        R.call("ep_param_set", rg.choice(c))
+
+
+def st_any_curve(R, rg, env):
+    fn = rg.choice(["ep_param_set_any", "ep_param_set_any_plain", "ep_param_set_any_endom", "ep_param_set_any_super",
+                    "ep_param_set_any_pairf"])
+    if R.has(fn):
+        R.call(fn)
+
+
+def st_rejected_curve_id(R, rg, env):
+    if env["ep_rejected"]:
+        R.call("ep_param_set", rg.choice(env["ep_rejected"]))
+
+
+def _foreign_curve(R, rg, env, setter, endom=False):
+    """a curve of the application over whatever modulus is active: y^2 = x^3 + a x + b with a point of it"""
+    if not R.has(setter):
+        return
+    try:
+        p = R.fp_setup()
+    except (ValueError, ArithmeticError):
+        return
+    if not is_probable_prime(p, 8):
+        return
+    F = PrimeField(p)
+    while True:
+        a, b = rg.randrange(1, p), rg.randrange(1, p)
+        if (4 * a ** 3 + 27 * b * b) % p:
+            break
+    E = WCurve(F, a, b)
+    Q = rand_point(E, rg)
+    fa, fb_, g = R.fp_new(a), R.fp_new(b), R.ep_new()
+    R.ep_put(g, Q[0], Q[1])
+    r, h = R.bn(rg.getrandbits(p.bit_length() - 2) | 1), R.bn(1)
+    if endom:
+        beta, lam = R.fp_new(rg.randrange(2, p)), R.bn(rg.getrandbits(p.bit_length() - 3))
+        R.call(setter, fa, fb_, g, r, h, beta, lam, 0)
+        R.free(beta)
+        R.bn_free(lam)
+    else:
+        R.call(setter, fa, fb_, g, r, h, 0)
+    for o in (fa, fb_, g):
+        R.free(o)
+    R.bn_free(r)
+    R.bn_free(h)
+
+
+def st_foreign_plain_curve(R, rg, env):
+    _foreign_curve(R, rg, env, "ep_curve_set_plain")
+
+
+def st_foreign_super_curve(R, rg, env):
+    _foreign_curve(R, rg, env, "ep_curve_set_super")
+
+
+def st_failed_endom_curve(R, rg, env):
+    # beta and lambda do not belong to the curve: the installation is abandoned half-way with an error
+    _foreign_curve(R, rg, env, "ep_curve_set_endom", endom=True)
+
+
+def st_own_curve(R, rg, env):
+    st_dense_prime(R, rg, env)
+    st_foreign_plain_curve(R, rg, env)
+
+
+def st_eb_selection(R, rg, env):
+    if env["eb_ids"]:
+        R.call("eb_param_set", rg.choice(env["eb_ids"])[1])
+
+
+def st_ed_selection(R, rg, env):
+    if env["ed_ids"]:
+        R.call("ed_param_set", rg.choice(env["ed_ids"])[1])
+
+
+def st_penta_poly(R, rg, env, dense=False):
+    cur = fb_int(R, ptr_fn(R, "fb_poly_get")())
+    (a, b, c), f = find_pentanomial(env["m"], rg, (cur,))
+    if f is None:
+        return
+    if dense:
+        n = R.K["RLC_FB_DIGS"] * 8
+        t = R.mem(n, 0)
+        fb_put(R, t, f)
+        R.call("fb_poly_set_dense", t)
+        R.free(t)
+    else:
+        R.call("fb_poly_set_penta", a, b, c)
+
+
+def st_dense_poly(R, rg, env):
+    st_penta_poly(R, rg, env, dense=True)
+
+
+def st_other_fb_id(R, rg, env):
+    cur = R.L.fb_param_get()
+    c = [v for _, v in env["fb_ids"] if v != cur] or [v for _, v in env["fb_ids"]]
+    R.call("fb_param_set", rg.choice(c))
+
+
+def st_same_fb_id(R, rg, env):
+    R.call("fb_param_set", R.L.fb_param_get())
+
+
+def st_other_eb(R, rg, env):
+    c = [v for _, v in env["eb_ids"] if v != env["v"]]
+    if c:
+        R.call("eb_param_set", rg.choice(c))
+
+
+def st_any_eb(R, rg, env):
+    fn = rg.choice(["eb_param_set_any", "eb_param_set_any_plain", "eb_param_set_any_kbltz"])
+    if R.has(fn):
+        R.call(fn)
+
+
+def st_rejected_eb_id(R, rg, env):
+    if env["eb_rejected"]:
+        R.call("eb_param_set", rg.choice(env["eb_rejected"]))
+
+
+def st_foreign_eb_curve(R, rg, env):
+    f = fb_int(R, ptr_fn(R, "fb_poly_get")())
+    m = env["m"]
+    if f.bit_length() - 1 != m or m % 2 == 0 or not gf2_irreducible(f):
+        return
+    K = GF2(f)
+    E = BinCurve(K, rg.choice((0, 1, rg.getrandbits(m))), rg.getrandbits(m) | 1)
+    Q = E.rand_point(rg)
+    n = R.K["RLC_FB_DIGS"] * 8
+    a, b = R.mem(n, 0), R.mem(n, 0)
+    fb_put(R, a, E.a)
+    fb_put(R, b, E.b)
+    g = R.mem(R.K["sizeof_eb_st"], 0)
+    fb_put(R, g + R.K["off_eb_st_x"], Q[0])
+    fb_put(R, g + R.K["off_eb_st_y"], Q[1])
+    fb_put(R, g + R.K["off_eb_st_z"], 1)
+    R.wr_int(g + R.K["off_eb_st_coord"], R.K["BASIC"])
+    r, h = R.bn(rg.getrandbits(m - 2) | 1), R.bn(2)
+    R.call("eb_curve_set", a, b, g, r, h)
+    for o in (a, b, g):
+        R.free(o)
+    R.bn_free(r)
+    R.bn_free(h)
+
+
+STEPS = {"dense-prime": st_dense_prime, "any-dense-prime": st_any_dense, "sparse-prime": st_pmers_prime,
+         "family-prime": st_family_prime, "other-field-id": st_other_field_id, "same-field-id": st_same_field_id,
+         "foreign-field-id": st_foreign_field_id, "any-field": st_any_field, "curve-selection": st_curve_selection,
+         "other-curve": st_other_curve, "same-id-again": st_select, "any-curve": st_any_curve,
+         "rejected-curve-id": st_rejected_curve_id, "foreign-plain-curve": st_foreign_plain_curve,
+         "foreign-super-curve": st_foreign_super_curve, "failed-endom-curve": st_failed_endom_curve,
+         "own-prime-and-curve": st_own_curve, "binary-curve-selection": st_eb_selection,
+         "edwards-curve-selection": st_ed_selection, "pentanomial": st_penta_poly, "dense-polynomial": st_dense_poly,
+         "other-polynomial-id": st_other_fb_id, "same-polynomial-id": st_same_fb_id, "other-binary-curve": st_other_eb,
+         "any-binary-curve": st_any_eb, "rejected-binary-curve-id": st_rejected_eb_id,
+         "foreign-binary-curve": st_foreign_eb_curve}
+FIELD_STEPS = ["dense-prime", "any-dense-prime", "sparse-prime", "family-prime", "other-field-id", "same-field-id",
+               "foreign-field-id", "any-field"]
+HIST = {"fp": FIELD_STEPS + ["same-id-again", "curve-selection", "edwards-curve-selection"],
+        "ep": FIELD_STEPS + ["same-id-again", "other-curve", "any-curve", "rejected-curve-id", "foreign-plain-curve",
+                             "foreign-super-curve", "failed-endom-curve", "own-prime-and-curve", "binary-curve-selection",
+                             "edwards-curve-selection"],
+        "ed": FIELD_STEPS + ["same-id-again", "curve-selection"],
+        "fb": ["pentanomial", "dense-polynomial", "other-polynomial-id", "same-id-again", "binary-curve-selection"],
+        "eb": ["pentanomial", "dense-polynomial", "other-polynomial-id", "same-polynomial-id", "same-id-again",
+               "other-binary-curve", "any-binary-curve", "rejected-binary-curve-id", "foreign-binary-curve",
+               "curve-selection"]}
+# quick tier: selecting a binary field or curve costs a quarter of a second in the sanitizer builds (tables of the
+# polynomial, generator table) - the histories that replace the polynomial or the curve behind the identifier stay, the
+# rest of the binary histories and the binary step inside the prime-field histories run in the thorough tier
+HIST_QUICK = {"fb": ["pentanomial", "dense-polynomial"],
+              "eb": ["pentanomial", "foreign-binary-curve", "other-polynomial-id"]}
+SETTER = {"fp": "fp_param_set", "ep": "ep_param_set", "ed": "ed_param_set", "fb": "fb_param_set", "eb": "eb_param_set"}
+
+
+def histories(ctx, kind, env):
+    """[(name, [step, ...])]: every single step that applies to this build, then random sequences of them"""
+    names = HIST[kind]
+    if ctx.quick:
+        names = HIST_QUICK.get(kind, [s for s in names if s != "binary-curve-selection"])
+    single = [s for s in names if not ((s == "edwards-curve-selection" and not env["ed_ids"]) or
+                                            (s in ("binary-curve-selection",) and not env["eb_ids"]) or
+                                            (s == "curve-selection" and not env["ep_ids"]) or
+                                            (s == "other-curve" and len(env["ep_ids"]) < 2) or
+                                            (s == "other-binary-curve" and len(env["eb_ids"]) < 2) or
+                                            (s == "other-polynomial-id" and len(env["fb_ids"]) < 2) or
+                                            (s == "foreign-field-id" and not env["fp_foreign"]))]
+    out = [(s, [s]) for s in single]
+    for i in range(ctx.n(0 if kind in HIST_QUICK else 2, 12)):
+        out.append(("sequence", None))          # drawn by the owner of the unit
+    return out, single
+
+
+def run_history(R, steps, env):
+    """the calls that precede the selection under test; what they return or raise is not judged"""
+    import random
+    strict = R.strict_chain
+    R.strict_chain = False
+    try:
+        for name, seed in steps:
+            STEPS[name](R, random.Random(seed), env)
+    finally:
+        R.strict_chain = strict
+
+
+def snapshot(R, X, kind):
+    """what the selection of an identifier installed, read through the getters -> dict (None: unusable)"""
+    L = R.L
+    try:
+        if kind == "fp":
+            return dict(p=R.fp_setup())
+        if kind == "ep":
+            P = R.ep_params()
+            P.update(opt_a=L.ep_curve_opt_a(), opt_b=L.ep_curve_opt_b(), level=L.ep_param_level(),
+                     embed=L.ep_curve_embed() if R.has("ep_curve_embed") else 0)
+            return P
+        if kind == "ed":
+            p = R.fp_setup()
+            K = R.K
+            g = R.mem(K["sizeof_ed_st"], R.poison)
+            R.call("ed_curve_get_gen", g)
+            gx, gy, gz = (R.fp_get(g + K["off_ed_st_" + c])[0] for c in "xyz")
+            R.free(g)
+            return dict(p=p, a=R.fp_get(R.S.vf_x18_ptr(20, 0))[0], d=R.fp_get(R.S.vf_x18_ptr(21, 0))[0], gx=gx, gy=gy, gz=gz,
+                        n=bn_of(R, "ed_curve_get_ord"), h=bn_of(R, "ed_curve_get_cof"), level=L.ed_param_level())
+        if kind == "fb":
+            return fb_int(R, ptr_fn(R, "fb_poly_get")())
+        if kind == "eb":
+            g = R.mem(R.K["sizeof_eb_st"], R.poison)
+            R.call("eb_curve_get_gen", g)
+            gx, gy, gz = (fb_int(R, g + R.K["off_eb_st_" + c]) for c in "xyz")
+            gco = R.rd_int(g + R.K["off_eb_st_coord"])
+            R.free(g)
+            return dict(f=fb_int(R, ptr_fn(R, "fb_poly_get")()), a=fb_int(R, ptr_fn(R, "eb_curve_get_a")()),
+                        b=fb_int(R, ptr_fn(R, "eb_curve_get_b")()), gx=gx, gy=gy, gz=gz, coord=gco,
+                        n=bn_of(R, "eb_curve_get_ord"), h=bn_of(R, "eb_curve_get_cof"), kbltz=L.eb_curve_is_kbltz(),
+                        level=L.eb_param_level(), opt_a=L.eb_curve_opt_a(), opt_b=L.eb_curve_opt_b())
+    except (ValueError, ArithmeticError):
+        return None
+
+
+def check_curve_after(ob, R, X, nm, v, hist, ref):
+    """the discriminating subset of check_curve for the selection that follows a history, plus behaviour"""
+    ctx, rng, L = ob.ctx, ob.ctx.rng, R.L
+    ob.ident = ident_of("ep", nm, hist)
+    r0 = R.call("ep_param_set", v)
+    if r0.caught or L.ep_param_get() != v:
+        ob("installs", lambda: (False, {"why": "ep_param_set does not install the identifier it installed before",
+                                        "error": bool(r0.caught), "ep_param_get": L.ep_param_get()}))
+        return
+    P = snapshot(R, X, "ep")
+    if P is None:
+        ob("field-prime", lambda: (False, {"why": "modulus not usable by the model", "p": hx(cur_modulus(R))}))
+        return
+    p, a, b, n, h = P["p"], P["a"], P["b"], P["n"], P["h"]
+    ob("modulus-is-the-identifiers-prime", lambda: modulus_ok(nm, p, ref["p"]))
+    ob("parameters-unchanged", lambda: unchanged({k_: P[k_] for k_ in ("a", "b", "gx", "gy", "n", "h")}, ref))
+    ob("flags-unchanged", lambda: unchanged({k_: P[k_] for k_ in ("endom", "pairf", "super", "ctmap", "opt_a", "opt_b",
+                                                                  "level", "embed")}, ref))
+    ob("field-prime", lambda: (is_prime(p) and p.bit_length() == R.K["RLC_FP_BITS"], {"p": hx(p)}))
+    if not is_prime(p):
+        return
+    digs = R.FP_DIGS
+    Rr = 1 << (8 * R.DB * digs)
+
+    def rd(getter, nd=digs):
+        return int.from_bytes(ctypes.string_at(ptr_fn(R, getter)(), R.DB * nd), "little")
+    ob("montgomery-constants", lambda: (rd("fp_prime_get_rdc", 1) == (-pow(p, -1, 1 << (8 * R.DB))) % (1 << (8 * R.DB)) and
+                                        R.mont == Rr % p and rd("fp_prime_get_conv") == Rr * Rr % p,
+                                        {"u": hx(rd("fp_prime_get_rdc", 1)), "one": hx(R.mont), "conv": hx(rd("fp_prime_get_conv"))}))
+    q = L.fp_prime_get_qnr()
+    ob("qnr-is-non-residue", lambda: (q % p != 0 and pow(q % p, (p - 1) // 2, p) == p - 1, {"qnr": q}))
+    ob("field-arithmetic", lambda: field_battery(R, p, rng))
+    F = PrimeField(p)
+    E = WCurve(F, a, b, n, h)
+    G = (P["gx"], P["gy"])
+    ob("discriminant-nonzero", lambda: (4 * a ** 3 + 27 * b * b) % p != 0)
+    on = ob("generator-on-curve", lambda: (E.on_curve(G), {"G": [hx(G[0]), hx(G[1])], "p": hx(p)}))
+    ob("order-prime", lambda: (is_prime(n), {"r": hx(n)}))
+    if not on or not is_prime(n) or (4 * a ** 3 + 27 * b * b) % p == 0:
+        return
+    ob("order-annihilates-generator", lambda: E.mul(n, G) is None)
+    ob("hasse", lambda: (h >= 1 and abs(p + 1 - h * n) <= 2 * math.isqrt(p) + 1, {"p+1-hr": hx(p + 1 - h * n)}))
+    ob("curve-arithmetic", lambda: curve_battery(R, E, G, n, rng))
+    if P["endom"]:
+        check_curve(ob, R, X, nm, v, "endo", hist=hist)
+    if not ctx.quick:
+        # thorough tier: every obligation of the identifier again (the expensive twist / cofactor-map groups only after
+        # the histories that replace the modulus or the curve behind the identifier)
+        heavy = hist in ("dense-prime", "family-prime", "foreign-plain-curve", "own-prime-and-curve", "failed-endom-curve")
+        for group in ("base", "map") + (("pairing", "cof") if heavy else ()):
+            check_curve(ob, R, X, nm, v, group, hist=hist)
+
+
+def check_eb_after(ob, R, X, nm, v, hist, ref):
+    ctx, rng, L = ob.ctx, ob.ctx.rng, R.L
+    ob.ident = ident_of("eb", nm, hist)
+    r0 = R.call("eb_param_set", v)
+    if r0.caught or L.eb_param_get() != v:
+        ob("installs", lambda: (False, {"why": "eb_param_set does not install the identifier it installed before",
+                                        "error": bool(r0.caught)}))
+        return
+    m = X["FB_POLYN"]
+    P = snapshot(R, X, "eb")
+    f = P["f"]
+    ob("polynomial-is-the-identifiers-polynomial", lambda: (f == ref["f"], {"observed": hx(f), "first-selection": hx(ref["f"])}))
+    ob("parameters-unchanged", lambda: unchanged({k_: P[k_] for k_ in ("a", "b", "gx", "gy", "gz", "coord", "n", "h")}, ref))
+    ob("flags-unchanged", lambda: unchanged({k_: P[k_] for k_ in ("kbltz", "level", "opt_a", "opt_b")}, ref))
+    irr = f.bit_length() - 1 == m and gf2_irreducible(f)
+    ob("field-irreducible", lambda: (irr, {"f": hx(f)}))
+    if not irr:
+        return
+    K = GF2(f)
+    ob("field-arithmetic", lambda: fb_battery(R, K, rng))
+    E = BinCurve(K, P["a"], P["b"])
+    G = (P["gx"], P["gy"])
+    n = P["n"]
+    on = ob("generator-on-curve", lambda: (P["b"] != 0 and P["gz"] == 1 and E.on_curve(G), {"G": [hx(G[0]), hx(G[1])]}))
+    ob("order-prime", lambda: (is_prime(n), {"r": hx(n)}))
+    if not on or not is_prime(n):
+        return
+    ob("order-annihilates-generator", lambda: E.mul(n, G) is None)
+    if R.has("eb_mul_gen"):
+        def gen_mul():
+            k = rng.randrange(1, n)
+            o = R.mem(R.K["sizeof_eb_st"], R.poison)
+            kb = R.bn(k)
+            try:
+                rr = R.call("eb_mul_gen", o, kb)
+                if rr.caught:
+                    return False, {"k": hx(k), "why": "eb_mul_gen raised an error"}
+                R.call("eb_norm", o, o)
+                x, y, z = (fb_int(R, o + R.K["off_eb_st_" + c]) for c in "xyz")
+            finally:
+                R.free(o)
+                R.bn_free(kb)
+            return z == 1 and (x, y) == E.mul(k, G), {"k": hx(k), "got": [hx(x), hx(y), hx(z)]}
+        ob("curve-arithmetic", gen_mul)
+    if not ctx.quick:
+        for group in (0, 1):
+            check_eb(ob, R, X, nm, v, group, hist=hist)
+
+
+def run_hist(ctx, R, X, ob, binary):
+    """parts 'hist' (prime fields, prime curves, Edwards curves) and 'hist-binary' (binary fields and curves): for every
+    identifier of every selection function of this build, select it, run a history of other public calls that change
+    the field / curve state, select it again and judge what is installed"""
+    cfg = ctx.cfg
+    L = R.L
+    m = X.get("FB_POLYN")
+    fps, silent = fp_ids(R)
+    eps, broken = ep_ids(R)
+    eds = accepted(R, "relic_ed.h", "ed_param_set", "ed_param_get") if not binary or not ctx.quick else []
+    # selecting a binary curve is slow in the sanitizer builds: enumerate them only where they are used
+    need_eb = binary or not ctx.quick
+    ebs_all = accepted(R, "relic_eb.h", "eb_param_set", "eb_param_get") if need_eb else []
+    ebs = ebs_all if binary else []
+    fbs = [(nm, v) for nm, v in sorted(R.EH.get("relic_fb.h", {}).items(), key=lambda kv: kv[1])
+           if nm.rsplit("_", 1)[-1].isdigit() and int(nm.rsplit("_", 1)[-1]) == m] if need_eb else []
+    enum_ep = [(nm, v) for nm, v in R.EH.get("relic_ep.h", {}).items() if not nm.startswith("EP_")]
+    env0 = dict(bits=R.K["RLC_FP_BITS"], m=m, fp_ids=fps, ep_ids=eps, ed_ids=eds, fb_ids=fbs, eb_ids=ebs_all,
+                fp_foreign=[R.E[nm] for nm in silent],
+                ep_rejected=[v for nm, v in enum_ep if (nm, v) not in eps and (nm, v) not in broken],
+                eb_rejected=[v for nm, v in R.EH.get("relic_eb.h", {}).items() if (nm, v) not in ebs_all])
+    todo = (("eb", ebs), ("fb", fbs)) if binary else (("ep", eps), ("fp", fps), ("ed", eds))
+    ctx.note("hist_identifiers_%s_%s" % (ctx.part, cfg),
+             {kind: [n for n, _ in ids] for kind, ids in todo})
+    recheck = {"fp": lambda nm, v, hist, ref: check_field(ob, R, X, nm, v, fps, hist=hist, ref=ref["p"]),
+               "ep": lambda nm, v, hist, ref: check_curve_after(ob, R, X, nm, v, hist, ref),
+               "ed": lambda nm, v, hist, ref: check_ed(ob, R, X, nm, v, hist=hist, ref=ref),
+               "fb": lambda nm, v, hist, ref: check_fb(ob, R, X, nm, v, hist=hist, ref=ref),
+               "eb": lambda nm, v, hist, ref: check_eb_after(ob, R, X, nm, v, hist, ref)}
+    unit = 0
+    used = {}
+    for kind, ids in todo:
+        for idx, (nm, v) in enumerate(ids):
+            env = dict(env0, v=v, setter=SETTER[kind])
+            hs, single = histories(ctx, kind, env)
+            if ctx.quick and kind in HIST_QUICK and len(ids) > 1:
+                # quick tier, binary: every history for at least one identifier and every identifier with at least one
+                # history (which pairs: rotates with VERIF_SEED); the full product runs in the thorough tier
+                rot = ctx.seed + idx
+                keep = max(1, (len(hs) + len(ids) - 1) // len(ids))
+                hs = [hs[(rot * keep + i) % len(hs)] for i in range(keep)]
+            ref = None
+            for hname, steps in hs:
+                mine = ctx.mine(unit)
+                unit += 1
+                if not mine:
+                    continue
+                if steps is None:
+                    steps = [ctx.rng.choice(single) for _ in range(ctx.rng.randrange(2, 5))]
+                plan = [[s, ctx.rng.getrandbits(48)] for s in steps]
+                key = ident_of(kind, nm, hname)
+                if not ctx.begin(key, [key, plan], budget=900):
+                    continue
+                ob.grouped = ctx.c18_grouped = True
+                try:
+                    r = R.call(SETTER[kind], v)                   # the identifier is the selected one ...
+                    if ref is None and not r.caught:
+                        # its parameter set as a plain selection installs it (judged by the other parts)
+                        ref = snapshot(R, X, kind)
+                    if ref is None:
+                        ctx.check(False, key + "|installs", "the first selection of this identifier failed")
+                        continue
+                    run_history(R, plan, env)                     # ... the state changes behind its back ...
+                    recheck[kind](nm, v, hname, ref)              # ... and it is selected again
+                    used[hname] = used.get(hname, 0) + 1
+                except MonitorViolation as e:
+                    ctx.fail(key + "|" + e.kind, e.detail)
+                finally:
+                    ob.grouped = ctx.c18_grouped = False
+                    ctx.end()
+    ctx.note("hist_histories_" + cfg, used)
 
 
 # ========================================================================================================== run
@@ -1450,6 +2228,8 @@ def run(ctx, part):
             raise RuntimeError("ed_param_set accepts no identifier in " + cfg)
         for nm, v in eds:
             check_ed(ob, R, X, nm, v)
+    elif part in ("hist", "hist-binary"):
+        run_hist(ctx, R, X, ob, part == "hist-binary")
     ctx.note("functions_exercised", sorted(R.fn_seen))
     ctx.note("error_codes_seen", {str(k): v for k, v in R.err_codes.items()})
 
